@@ -25,7 +25,7 @@ COMPONENTS = {"real": ["ECAgent.Core.Environment.add_agent / remove_agent", "Sys
               "stub": ["component classes and agents are harness-defined"]}
 PROBES = ["pool_deleted_and_recreated", "leave_from_middle", "two_models_same_type", "spatial_join_leave", "rejoin",
           "attach_after_leaving", "subclass_component", "resident_touch_run", "manual_register", "reject_join", "reject_leave",
-          "model_completed_then_join_leave"]
+          "model_completed_then_join_leave", "falsy_component_emptied"]
 TECHNIQUE = "deterministic simulation: seeded join/leave/attach/detach histories interleaved over several live models vs a per-model mirror reference; known-finding classifier for resident attach/detach"
 LEVEL_TEXT = ("Seeded search over join/leave/attach/detach histories on 1-3 live models; after every operation, for every "
               "component type and every model, the exposed listing must be element-wise identical (objects, joining order) to "
@@ -59,7 +59,18 @@ class CE(Component):
         self.payload = payload
 
 
-CT = [CA, CB, CC, CD, CE]
+class CF(Component):
+    """A container-like user component: falsy while it holds nothing (defines __len__)."""
+
+    def __init__(self, agent, model):
+        super().__init__(agent, model)
+        self.items = []
+
+    def __len__(self):
+        return len(self.items)
+
+
+CT = [CA, CB, CC, CD, CE, CF]
 
 
 def generate(rng, tier):
@@ -73,7 +84,7 @@ def generate(rng, tier):
     for mi in range(nm):
         for k in range(nag[mi]):
             if rng.random() < 0.7:
-                for t in rng.sample(range(5), rng.randint(0, 3)):
+                for t in rng.sample(range(6), rng.randint(0, 3)):
                     ops.append({"m": mi, "op": "attach", "k": k, "t": t})
     for _ in range(rng.randint(10, 120 if tier == "thorough" else 70)):
         mi = rng.randrange(nm)
@@ -84,15 +95,17 @@ def generate(rng, tier):
         elif r < 0.5:
             ops.append({"m": mi, "op": "leave", "k": k})
         elif r < 0.65:
-            ops.append({"m": mi, "op": "attach", "k": k, "t": rng.randrange(5), "manual": rng.random() < 0.5})
+            ops.append({"m": mi, "op": "attach", "k": k, "t": rng.randrange(6), "manual": rng.random() < 0.5})
         elif r < 0.77:
-            ops.append({"m": mi, "op": "detach", "k": k, "t": rng.randrange(5), "manual": rng.choice(["no", "before", "after"])})
+            ops.append({"m": mi, "op": "detach", "k": k, "t": rng.randrange(6), "manual": rng.choice(["no", "before", "after"])})
         elif r < 0.9:
-            ops.append({"m": mi, "op": "query", "t": rng.randrange(5)})
+            ops.append({"m": mi, "op": "query", "t": rng.randrange(6)})
         elif r < 0.93:
             ops.append({"m": mi, "op": "leave_ghost"})
         elif r < 0.955:
             ops.append({"m": mi, "op": "lifecycle", "what": rng.choice(["complete", "step", "step", "complete"])})
+        elif r < 0.98:
+            ops.append({"m": mi, "op": "fill", "k": k, "n": rng.choice([0, 0, 1, 2])})
         else:
             ops.append({"m": mi, "op": "join_dup", "k": k})
     return {"worlds": worlds, "agents": nag, "touch": touch, "ops": ops}
@@ -184,7 +197,7 @@ def execute(sc, ctx):
             k = op["k"] % len(mm.agents)
             a = mm.agents[k]
         if kind == "attach":
-            T = CT[op["t"] % 5]
+            T = CT[op["t"] % 6]
             resident = k in mm.residents
             if T in a.components:
                 continue
@@ -205,7 +218,7 @@ def execute(sc, ctx):
                 ctx.probe("attach_after_leaving")
             ctx.event("attach", mi, k, T.__name__, resident, bool(op.get("manual")))
         elif kind == "detach":
-            T = CT[op["t"] % 5]
+            T = CT[op["t"] % 6]
             resident = k in mm.residents
             if T not in a.components:
                 continue
@@ -280,6 +293,12 @@ def execute(sc, ctx):
             twin.add_component(CB(twin, mm.model))
             args = mm.ref.real([0, 0, 0]) if mm.ref.spatial else ()
             ctx.expect_raises("join-duplicate", DuplicateAgentError, mm.env.add_agent, twin, *args)
+        elif kind == "fill":
+            # the container component of an agent gets / loses content: it stays the same component, only its truthiness changes
+            a_ = mm.agents[op["k"] % len(mm.agents)]
+            if CF in a_.components:
+                a_.components[CF].items[:] = list(range(op["n"]))
+                ctx.probe("falsy_component_emptied" if op["n"] == 0 else "falsy_component_filled")
         elif kind == "lifecycle":
             # the listing claim does not depend on the model's lifecycle: stepping or completing a model changes nothing
             if op["what"] == "complete":
